@@ -1,6 +1,8 @@
 ------------------------- MODULE TokenTreeTrace -------------------------
 (* Recorded histories of the real TokenTree (harness/drivers/c16.py) checked against TokenTree.tla: *)
-(* every event must be the Gather step of the specification and reproduce the logged projection.    *)
+(* every event must be a step of the specification - Gather for "G" (gather_token), Unserialize for *)
+(* "U" (unserialize_public of a wire string; garbage chunks are logged as the forged token), "I" for *)
+(* the freshly constructed object - and reproduce the logged projection and result.                 *)
 EXTENDS TokenTree, Json, IOUtils, TLCExt
 
 Traces == JsonDeserialize(IOEnv.TRACE_FILE)
@@ -15,10 +17,14 @@ TraceInit == /\ tid \in 1..Len(Traces) /\ l = 1
              /\ fpar = Traces[tid].fpar
              /\ elements = <<>> /\ unchained = <<>> /\ cont = {} /\ offered = {}
              /\ contOffered = {} /\ overflowed = FALSE
+             /\ view = Traces[tid].view /\ view \in Views /\ treeKey = KeyOf(view) /\ ret = "-"
 
 TraceNext == /\ l <= Len(Ev)
              /\ LET e == Ev[l] IN
-                  /\ Gather(e.t, e.wc)
+                  /\ \/ e.k = "G" /\ Gather(e.t, e.wc) /\ ret' = e.ret
+                     \/ e.k = "U" /\ Unserialize(e.ts) /\ ret' = e.ret
+                     \/ e.k = "I" /\ l = 1 /\ UNCHANGED vars
+                  /\ treeKey' = e.key
                   /\ elements' = e.els
                   /\ unchained' = e.unch
                   /\ cont' = Range(e.cont)
